@@ -200,7 +200,7 @@ def c16_build(seed, tier):
     ins = ["i%d" % k for k in range(r.randint(1, 3))]
     outs = ["o%d" % k for k in range(r.randint(1, 2))]
     c = gen_component(g, ins, outs)
-    kind = r.choice(["fresh", "existing_input", "existing_output", "absent", "same", "sequence", "roundtrip"])
+    kind = r.choice(["fresh", "existing_input", "existing_output", "absent", "same", "sequence", "roundtrip", "repeated_pair"])
     allv = ins + outs
     if kind == "fresh":
         maps = [(r.choice(allv), "fresh")]
@@ -216,6 +216,11 @@ def c16_build(seed, tier):
     elif kind == "roundtrip":
         v = r.choice(allv)
         maps = [(v, "tmp_fresh"), ("tmp_fresh", v)]
+    elif kind == "repeated_pair":
+        # the same (source, target) pair listed twice with the source re-created in between: order and multiplicity matter
+        a = r.choice(allv)
+        b = r.choice([x for x in allv if x != a] or ["fresh"])
+        maps = r.choice([[(a, "w_"), (b, a), (a, "w_")], [(a, "r_"), ("r_", a), (a, "r_")]])
     else:
         a, b = r.sample(allv, 2) if len(allv) >= 2 else (allv[0], allv[0])
         maps = [(a, "tmp_"), (b, a), ("tmp_", b)]
@@ -370,6 +375,19 @@ def c19_eval(p):
             kk = tl.copy()
             if not (kk == tl) or hash(kk) != hash(tl) or any(not (a == b) or hash(a) != hash(b) for a, b in zip(kk.terms, tl.terms)):
                 out["violation"] = _viol("C19", "copy", "list_copy_not_equal", "copy of a constraint list is not equal to its original", p, "c19_eval")
+        # history: hashed, then simplified in place, then compared with a twin that was never hashed
+        lazy = contract_from_data(p["c"], simplify=False)
+        if lazy.g.terms:
+            extra = type(lazy.g.terms[0])(dict(lazy.g.terms[0].variables), lazy.g.terms[0].constant + 3.0)  # a redundant guarantee
+            lazy = type(lazy)(lazy.a, lazy.g | type(lazy.g)([extra]), lazy.inputvars, lazy.outputvars, simplify=False)
+            before = hash(lazy)
+            try:
+                lazy.simplify()
+                twin = type(lazy)(lazy.a.copy(), lazy.g.copy(), list(lazy.inputvars), list(lazy.outputvars), simplify=False)
+                if (lazy == twin) and hash(lazy) != hash(twin):
+                    out["violation"] = _viol("C19", "hash", "stale_after_in_place_simplify", "a contract simplified in place equals its fresh twin but hashes differently (hash before: %s)" % before, p, "c19_eval")
+            except ValueError:
+                pass
     except Exception as ex:
         out["violation"] = _viol("C14", "eq", type(ex).__name__, "equality/hash raised %s: %s" % (type(ex).__name__, str(ex)[:150]), p, "c19_eval")
     return out
